@@ -384,7 +384,7 @@ def escaper(ctx, cfg, fs):
             elif c.is_(r'Vec::<u8>::') and not c.is_(r'Vec::<u8>::(len|is_empty|capacity|as_slice)$'):
                 out.append('dyn')
         return tuple(out)
-    CLASSES = {32: 'space', 10: 'newline', 46: 'dot', 39: 'apostrophe', 92: 'backslash', 45: 'dash', 65: 'other'}
+    CLASSES = {32: 'space', 10: 'newline', 46: 'dot', 39: 'apostrophe', 92: 'backslash', 45: 'dash', 65: 'other', 0xC3: 'utf8 lead byte', 0xA0: 'utf8 continuation a0', 0x85: 'utf8 continuation 85'}
     table = {}
     for V in disc:
         for v in CLASSES:
@@ -409,6 +409,10 @@ def escaper(ctx, cfg, fs):
     for V in ('Unescaped', 'UnescapedAtNewline'):
         ok = all({t for t, a in rows(V, v)} == {('raw',)} for v in CLASSES)
         ctx.ob('E.roff-escaper', 'escape:%s-verbatim' % V, ok, 'the %s rule appends exactly the byte itself for every byte class: %s' % (V, fmt(rows(V, 65))), where=b.where(), cfg=cfg)
+    # E1b: the escaper works on bytes: the bytes of a multi-byte character (>= 0x80) are copied by every rule - treating 0xA0 / 0x85 as
+    # the Latin-1 characters NBSP / NEL would replace half a character and the promised UTF-8 of the output would not hold
+    hi = all({t for t, a in rows(V, v)} == {('raw',)} for V in disc for v in (0xC3, 0xA0, 0x85))
+    ctx.ob('E.roff-escaper', 'escape:non-ascii-bytes-verbatim', hi, 'every rule copies the bytes of non-ASCII characters unchanged: %s' % hi, where=b.where(), cfg=cfg)
     # E2: Spaces
     ok = all({t for t, a in rows('Spaces', v)} == {(92, 32)} for v in (32, 10)) and all({t for t, a in rows('Spaces', v)} == {('raw',)} for v in CLASSES if v not in (32, 10, 92))
     ctx.ob('E.roff-escaper', 'escape:Spaces-replaces-space-and-newline', ok,
